@@ -7,7 +7,7 @@
 //!
 //! Case / event fields: op, base, mode, prec, x {sig, exp}, y {sig, exp} (powf exponent),
 //! n (powi exponent, JSON int), cls (class label of the generator), src.
-//! Event adds: outs [{forms, out: {k: ok, v: {v: float, flag}} | {k: panic, msg} | {k: timeout}}].
+//! Event adds: xd, yd (digit counts of the operands), outs [{forms, out: {k: ok, v: {v: float, flag}} | {k: panic, msg} | {k: timeout}}].
 use dashu_float::round::Round;
 use dashu_float::{Context, FBig, Repr};
 use dashu_int::{IBig, UBig, Word};
@@ -114,15 +114,16 @@ fn run_case(log: &mut Log, c: &Value, src: &str) {
     let n = c["n"].as_i64().unwrap_or(0);
     BUSY_CASE.store(log.n + 1, Ordering::SeqCst);
     BUSY_SINCE.store(now_ms(), Ordering::SeqCst);
-    let (x, y, outs) = dispatch_base!(base, B => {
+    let (x, y, outs, xd, yd) = dispatch_base!(base, B => {
         let x = dec_arg::<B>(&c["x"]);
         let y = dec_arg::<B>(&c["y"]);
         let outs = dispatch_mode!(mode.as_str(), R => forms::<R, B>(&op, prec, &x, &y, n));
-        // operands are echoed as the library holds them (Repr::new strips trailing zero digits)
-        (enc_arg(&x), enc_arg(&y), outs)
+        // operands are echoed as the library holds them (Repr::new strips trailing zero digits),
+        // with their digit counts as the library reports them (FBig::from_repr wants digits <= precision)
+        (enc_arg(&x), enc_arg(&y), outs, x.digits(), y.digits())
     });
     BUSY_SINCE.store(0, Ordering::SeqCst);
-    log.ev(json!({"prop": "C11", "op": op, "base": base, "mode": mode, "prec": prec, "x": x, "y": y, "n": n,
+    log.ev(json!({"prop": "C11", "op": op, "base": base, "mode": mode, "prec": prec, "x": x, "y": y, "n": n, "xd": xd, "yd": yd,
         "cls": c["cls"].as_str().unwrap_or(""), "src": src, "outs": outs}));
 }
 
